@@ -1399,16 +1399,18 @@ impl Analyzable for Program {
 
         let parties = self.parties.analyze(self.scope.clone());
 
-        let policies = self.policies.analyze(self.scope.clone());
-
-        let assets = self.assets.analyze(self.scope.clone());
-
         let mut types = self.types.clone();
         let mut aliases = self.aliases.clone();
 
         let scope_rc = self.scope.as_mut().unwrap();
 
+        // expressions keep a handle on the scope they were analyzed in, so nothing that
+        // contains expressions may be analyzed before the scope has stopped changing
         let (types, aliases) = resolve_types_and_aliases(scope_rc, &mut types, &mut aliases);
+
+        let policies = self.policies.analyze(self.scope.clone());
+
+        let assets = self.assets.analyze(self.scope.clone());
 
         let txs = self.txs.analyze(self.scope.clone());
 
